@@ -4,7 +4,20 @@
  * -DWITNESS turns the run into its reachability twin: the WITNESS assertions must come back
  * VIOLATED (DESIGN 2.2.3). */
 #include GEN
-size_t nondet_size_t(void); unsigned nondet_unsigned(void); _Bool nondet_bool(void); unsigned char nondet_uchar(void); long nondet_long(void);
+size_t nondet_size_t(void);
+#ifdef SKIP_mir_add_mod
+/* contract of add_mod (decided on its own by S_ADD_MOD for all 64-bit inputs): used in place of its body so that
+   sub_mod is decided in seconds instead of 800 s; the precondition at the call site is an obligation */
+_Bool ADD_MOD_PRE_OK = 1;
+size_t mir_add_mod(size_t x, size_t y, size_t m) {
+  if (!(m > 0 && x <= m && y <= m)) ADD_MOD_PRE_OK = 0;
+  size_t r = nondet_size_t();
+  unsigned __int128 sum = (unsigned __int128)x + y, mm = m;
+  /* r = (x + y) mod m without a division: x, y <= m, so the quotient is 0, 1 or 2 */
+  __CPROVER_assume(m == 0 || (r < m && (sum == r || sum == mm + r || sum == mm + mm + r)));
+  return r;
+}
+#endif unsigned nondet_unsigned(void); _Bool nondet_bool(void); unsigned char nondet_uchar(void); long nondet_long(void);
 typedef st_CircularBuffer cb_t;
 #define SLOT(b, i) ((b)->f2.a[((b)->f1 + (i)) % (NN ? NN : 1)])
 
@@ -410,14 +423,19 @@ int main() {
   CEX_a = x; CEX_b = y; CEX_start = m;
 #if defined(S_SUB_MOD)
   size_t r = mir_sub_mod(x, y, m);
-  unsigned __int128 w = ((unsigned __int128)x + m - y) % m;
+  unsigned __int128 w = (unsigned __int128)x + m - y;      /* (x - y) mod m == (x + m - y) mod m */
 #else
   size_t r = mir_add_mod(x, y, m);
-  unsigned __int128 w = ((unsigned __int128)x + y) % m;
+  unsigned __int128 w = (unsigned __int128)x + y;
 #endif
+  unsigned __int128 mm = m;
   panicked = UNWINDING;
   PROP(!UNWINDING, "no overflow / division panic for any 64-bit x, y <= m, m > 0");
-  PROP(r == (size_t)w, "result equals the modular sum/difference computed in 128 bits");
+  /* r == w mod m, stated without a 128-bit division: w <= 2m, so the quotient is 0, 1 or 2 */
+  PROP(r < m && (w == r || w == mm + r || w == mm + mm + r), "result equals the modular sum/difference computed in 128 bits");
+#ifdef SKIP_mir_add_mod
+  PROP(ADD_MOD_PRE_OK, "sub_mod calls add_mod within add_mod's precondition (m > 0, x <= m, y <= m)");
+#endif
   WIT(x + y < x, "[any] x + y overflowing the machine word is reachable");
   WIT(m > ((size_t)1 << 63) && x == m, "[any] m above 2^63 with x == m is reachable");
 #else
